@@ -12,7 +12,7 @@ Jobs (all answers are JSON; octets are hex):
   {"op":"frame_sweep", "maxlen", "streams":[{"chunks":[hex,..]}, ...]}   (real receiver class, stringReceived observed)
         -> {"results":[{"events":[...], "dead":bool, "buf":hex}, ...]}
   {"op":"new", "ep", "kind":"rs"|"ws", "role", "sers":[names], "max":int|null, "sess":{"open_raises":bool,"react":{idx:kind}}}
-  {"op":"feed", "ep", "chunks":[hex,...], "env_stop":bool}     {"op":"lost","ep","clean":bool}
+  {"op":"feed", "ep", "chunks":[hex,...], "env_stop":bool, "burst":bool}     {"op":"lost","ep","clean":bool}
   {"op":"send", "ep", "msgs":[{"id":n,"pad":k} | {"id":n,"len":L} | {"id":n,"bad":true}]}
   {"op":"api", "ep", "name":"close"|"abort"}                    {"op":"frames","ser":name,"msgs":[...],"batch":bool}
   {"op":"drop", "ep"}
@@ -196,15 +196,21 @@ class Endpoint:
         kinds = ("lose", "abort", "escaped") if mode is True else ("lose", "escaped")
         return any(e[0] in kinds for e in self.log)
 
-    def feed(self, chunks, env_stop=True):
+    def feed(self, chunks, env_stop=True, burst=False):
+        """burst=True: all reads are delivered back to back BEFORE the event loop gets a turn (asyncio: several
+        data_received calls queued behind one waiter wake-up - several TLS records / a pipelined peer; Twisted: the same as
+        one by one, dataReceived is synchronous).  burst=False: one read per loop iteration."""
         dropped = 0
         for c in chunks:
             if env_stop and self.stopped(env_stop):
                 dropped += 1
                 continue
             self._entry(self.p.dataReceived if FW == "tx" else self.p.data_received, c)
-            if self.kind == "ws":
+            if self.kind == "ws" and not burst:
                 ENV.turn()
+            self._loop_exc()
+        if self.kind == "ws" and burst:
+            ENV.turn()
             self._loop_exc()
         if dropped:
             self.log.append(["undelivered", dropped])
@@ -465,7 +471,7 @@ def run_job(job):
             if j["op"] == "new": EPS.pop(j["ep"], None)
         return {"results": res}
     ep = EPS[job["ep"]]
-    if op == "feed": ep.feed([bytes.fromhex(c) for c in job["chunks"]], job.get("env_stop", True))
+    if op == "feed": ep.feed([bytes.fromhex(c) for c in job["chunks"]], job.get("env_stop", True), job.get("burst", False))
     elif op == "lost": ep.lost(job.get("clean", False))
     elif op == "send": ep.send(job["msgs"])
     elif op == "api": ep.api(job["name"])
